@@ -352,6 +352,8 @@ def labels_case():
         nd = node.info(O()).info
         ndf = ls.NodeListener(frame="F").info(OF()).info
         watched = ls.NodeListener(frame="F")(OF())
+        aps = ls.ApsideListener(frame="F")(OF())
+        rad = ls.RadialVelocityListener("F")(OF())
         chk = mx.check(O())
         up = bool(v["phi_dot"] > 0)
         ndown = bool(v["phi_dot"] < 0)
@@ -359,10 +361,13 @@ def labels_case():
         return {"aos_iff_rising": 1 if (aos == "AOS") == up else 0, "desc_iff_falling": 1 if (nd == "Desc Node") == ndown else 0,
                 "desc_iff_falling_in_watched_frame": 1 if (ndf == "Desc Node") == ndown else 0,
                 "node_quantity_is_watched_latitude": watched - v["phi"] + 1,
+                "apside_quantity_is_watched_radial_rate": aps - v["phi_dot"] + 1,
+                "radial_quantity_is_watched_radial_rate": rad - v["phi_dot"] + 1,
                 "max_needs_visible_and_not_rising": 1 if ((not chk) or visible_descending) else 0}
 
     def ref(env, v, out):
-        return {"aos_iff_rising": 1, "desc_iff_falling": 1, "desc_iff_falling_in_watched_frame": 1, "node_quantity_is_watched_latitude": 1, "max_needs_visible_and_not_rising": 1}
+        return {"aos_iff_rising": 1, "desc_iff_falling": 1, "desc_iff_falling_in_watched_frame": 1, "node_quantity_is_watched_latitude": 1, "apside_quantity_is_watched_radial_rate": 1,
+                "radial_quantity_is_watched_radial_rate": 1, "max_needs_visible_and_not_rising": 1}
     return Case("labels", ins, run, ref, timeout=60, maxpaths=400, tol=0, abs_tol=0.5,
                 desc="AOS iff the elevation rate is positive (LOS otherwise), Desc Node iff the latitude rate in the watched frame (NodeListener(frame=)) is negative, a MAX event is "
                      "only considered above the horizon while the elevation is not rising")
